@@ -295,7 +295,15 @@ pub fn run_cases<P: Property>(p: &P, seed: u64, tier: Tier, count: u64, known: &
                             p.generate(&mut rng, tier)
                         };
                         let mut stats = Stats::default();
+                        // diagnostics only (stderr, never part of the outcome): VERIF_SLOW=<seconds>
+                        let started = std::env::var("VERIF_SLOW").ok().and_then(|s| s.parse::<f64>().ok()).map(|limit| (std::time::Instant::now(), limit));
                         let outcome = p.check(&case, &mut stats);
+                        if let Some((t0, limit)) = started {
+                            let dt = t0.elapsed().as_secs_f64();
+                            if dt > limit {
+                                eprintln!("SLOW case {} took {:.1}s: {}", i, dt, serde_json::to_string(&case).map(|s| s.chars().take(600).collect::<String>()).unwrap_or_default());
+                            }
+                        }
                         let key = p.nontrivial_key(&case, &stats);
                         local.evaluations += 1;
                         local.total.merge(&stats);
